@@ -143,12 +143,14 @@ static void dump_state(char *buf, unsigned long n)
                                      (unsigned long)g->data_avail_epoch, g->memory ? (unsigned long)zone_in_use(g->memory) : 0UL);
         if (0 == nl && no > 0 && g->mutex > 0) full = g->super.device_index;
         if (g->mutex > 0) waiting = 1;
-        if (g->mutex > 0 && g->memory && zone_in_use(g->memory) >= (size_t)g->mem_nb_blocks * g->mem_block_size) exhausted = g->super.device_index;
+        /* exhausted = not even one more tile fits (with half-tile blocks a lone free block does not help) */
+        if (g->mutex > 0 && g->memory && zone_in_use(g->memory) + (size_t)SH->nelems * sizeof(int64_t) > (size_t)g->mem_nb_blocks * g->mem_block_size) exhausted = g->super.device_index;
     }
     if (full < 0 && leaked > 0 && waiting && l + 200 < n)
         l += (unsigned long)snprintf(buf + l, n - l, " [lru-leak: %d clean device copies without reader are in no LRU (dropped by reserve_space, never pushed back) while a task waits for device memory]", leaked);
+    if (!waiting && l + 20 < n) l += (unsigned long)snprintf(buf + l, n - l, " [devices-idle]");
     if (full < 0 && !(leaked > 0 && waiting) && exhausted >= 0 && l + 200 < n)
-        l += (unsigned long)snprintf(buf + l, n - l, " [device-memory-exhausted: every block of device %d is allocated, a task waits for memory in the device pipeline and nothing can be evicted]", exhausted);
+        l += (unsigned long)snprintf(buf + l, n - l, " [device-memory-exhausted: no further tile fits into the memory of device %d, a task waits in the device pipeline and nothing can be evicted]", exhausted);
     if (full >= 0 && l + 200 < n)
         snprintf(buf + l, n - l, " [device-memory-full-of-dirty-copies: device %d has no clean copy to evict, only OWNED ones, a task is waiting for memory in the device pipeline and no write-back is ever issued]", full);
 }
@@ -270,8 +272,18 @@ void *rank_main(void *arg)
     parsec_context_add_taskpool(ctx, TP);
     parsec_context_start(ctx);
     memset(CLASSES, 0, sizeof(CLASSES));
-    for (int i = 0; i < SH->ntasks; i++) insert_desc(&SH->tasks[i]);
-    devh_event(6, 0, 0);            /* everything inserted: the harness opens the gate */
+    for (int i = 0; i < SH->ntasks; i++) if (!SH->tasks[i].is_flush) insert_desc(&SH->tasks[i]);
+    if (!SH->flush_after_wait) for (int i = 0; i < SH->ntasks; i++) if (SH->tasks[i].is_flush) insert_desc(&SH->tasks[i]);
+    devh_event(6, 0, 0);            /* every task inserted: the harness opens the gate */
+    if (SH->flush_after_wait) {
+        /* flush tasks are writers: inserted up front each of them would return AGAIN from prepare_input (and be re-queued
+         * through the scheduler) for as long as a reader of its tile is outstanding, i.e. for the whole run: with a handful of
+         * threads that retry traffic slows the one thread that can make progress by orders of magnitude (KF-DTD-AGAIN-LIVELOCK
+         * family; not an accelerator matter).  On one rank a wait before the flush is legal (docs/doxygen/dtd.md). */
+        parsec_taskpool_wait(TP);
+        devh_event(3, 0, 0);
+        for (int i = 0; i < SH->ntasks; i++) if (SH->tasks[i].is_flush) insert_desc(&SH->tasks[i]);
+    }
     parsec_taskpool_wait(TP);
     devh_event(4, 0, 0);
     for (int s = 0; s < 18; s++) if (NULL != CLASSES[s]) parsec_dtd_task_class_release(TP, CLASSES[s]);
